@@ -462,7 +462,12 @@ def elementCore (c : BCfg) (kids : List Item → BM (List Node)) (start : Elem) 
     -- metal:define-macro
     let slot2 ← match get (METAL, lit "define-macro") with
       | some cl => do
-        bModify (fun s => { s with macros := (s.macros.filter (·.1 != cl.str)) ++ [(cl.str, slot1)] })
+        -- `self._macros[clause] = slot`: a dict keeps the position of a key that is assigned again
+        bModify (fun s =>
+          let ms : List (Str × Node) := if s.macros.any (fun m => m.1 == cl.str)
+            then s.macros.map (fun m => if m.1 == cl.str then (cl.str, slot1) else m)
+            else s.macros ++ [(cl.str, slot1)]
+          { s with macros := ms })
         pure (Node.useInternal (some cl.str))
       | none => pure slot1
     let slot3 := match nameW with | some w => w slot2 | none => slot2
